@@ -28,6 +28,13 @@ fn extensions() -> Extensions {
         out.extend_from_slice(&b);
         FatResponse::no_cache(Response::new(Bytes::from(out)))
     }));
+    // a handler that reads at most 20 000 bytes of the request body: bodies far above that arrive in many HTTP/2 DATA
+    // frames (<= 16 KiB each) / TCP segments, none of them as large as the limit
+    ext.add_prepare_single("/echo20k", prepare!(req, _h, _p, _a, {
+        let b = req.body_mut().read_to_bytes(20_000).await.unwrap_or_default();
+        let sum = b.iter().fold(7u64, |acc, x| (acc * 31 + *x as u64) % 1_000_000_007);
+        FatResponse::no_cache(Response::new(Bytes::from(format!("len={};sum={sum};first={:?};last={:?}", b.len(), b.first(), b.last()))))
+    }));
     ext.add_prepare_single("/s", prepare!(req, _h, _p, _a, {
         // stream marker: /s?id=K answers "stream K" after a delay derived from K
         let id: u64 = req.uri().query().and_then(|q| q.strip_prefix("id=")).and_then(|v| v.split('&').next()).and_then(|v| v.parse().ok()).unwrap_or(0);
@@ -59,10 +66,14 @@ fn kind(k: &str) -> (&'static str, &'static str, Vec<(&'static str, &'static str
         "post" => ("POST", "/echo", vec![], Some(b"request body of some length".to_vec())),
         "postbig" => ("POST", "/echo", vec![], Some(gen_bytes(3000, 5))),
         "put" => ("PUT", "/echo", vec![], Some(b"x".to_vec())),
+        "post20k" => ("POST", "/echo20k", vec![], Some(gen_bytes(20_000, 9))),
+        "post20k1" => ("POST", "/echo20k", vec![], Some(gen_bytes(20_001, 9))),
+        "post50k" => ("POST", "/echo20k", vec![], Some(gen_bytes(50_000, 11))),
+        "post200k" => ("POST", "/echo20k", vec![], Some(gen_bytes(200_000, 13))),
         _ => unreachable!("{k}"),
     }
 }
-const KINDS: [&str; 18] = ["get", "head", "getgz", "getbr", "headgz", "uncached", "empty", "missing", "headmissing", "range", "range416", "unsafe", "png406", "cors", "options", "post", "postbig", "put"];
+const KINDS: [&str; 22] = ["post20k", "post20k1", "post50k", "post200k", "get", "head", "getgz", "getbr", "headgz", "uncached", "empty", "missing", "headmissing", "range", "range416", "unsafe", "png406", "cors", "options", "post", "postbig", "put"];
 
 pub struct Pair {
     rt: tokio::runtime::Runtime,
@@ -74,7 +85,10 @@ impl Pair {
     pub fn new() -> Self {
         let rt = tokio::runtime::Builder::new_multi_thread().worker_threads(4).enable_all().build().unwrap();
         let server = rt.block_on(kvarn_testing::ServerBuilder::new(extensions(), host::Options::default()).run());
-        let h1 = server.client().http1_only().build().unwrap();
+        // no connection reuse for the HTTP/1.1 client: kvarn closes a HTTP/1 connection after answering a request whose
+        // body it did not read completely (F23) without announcing it, and a pooled connection would make the *next*
+        // request fail in the client library; persistent connections are C08's subject, C20 compares answers per request
+        let h1 = server.client().http1_only().pool_max_idle_per_host(0).build().unwrap();
         let h2 = server.client().http2_prior_knowledge().build().unwrap();
         Pair { rt, server, h1, h2 }
     }
@@ -98,7 +112,7 @@ impl Group for Pair {
         "c20.pair"
     }
     fn rule(&self) -> &'static str {
-        "a TLS server built like kvarn_testing::ServerBuilder; reqwest clients pinned to http1_only and to HTTP/2 (ALPN h2); sequences of 1-8 requests over 18 kinds (cached/uncached, HEAD, gzip/br/zstd, ranges 206/416, 404, 400, 406, CORS 403, OPTIONS, POST/PUT bodies up to 3000 bytes echoed by the handler) sent through both; status, end-to-end headers (normalised by the model's `normalise`: drops connection, keep-alive, content-length, alt-svc) and body bytes compared pairwise; oracle: equality, and the protocol version each client reports; non-trivial = the sequence has a non-GET or an error or a compressed response"
+        "a TLS server built like kvarn_testing::ServerBuilder; reqwest clients pinned to http1_only and to HTTP/2 (ALPN h2); sequences of 1-8 requests over 18 kinds (cached/uncached, HEAD, gzip/br/zstd, ranges 206/416, 404, 400, 406, CORS 403, OPTIONS, POST/PUT bodies up to 3000 bytes echoed by the handler, bodies of 20 000 / 20 001 / 50 000 / 200 000 bytes to a handler that reads at most 20 000 — many DATA frames / segments, none as large as the limit) sent through both; status, end-to-end headers (normalised by the model's `normalise`: drops connection, keep-alive, content-length, alt-svc) and body bytes compared pairwise; oracle: equality, and the protocol version each client reports; non-trivial = the sequence has a non-GET or an error or a compressed response"
     }
     fn parallel(&self) -> bool {
         false
@@ -126,7 +140,17 @@ impl Group for Pair {
             match (a, b) {
                 (Ok(a), Ok(b)) => {
                     if a.0 != "HTTP/1.1" || b.0 != "HTTP/2.0" { problems.push(format!("{k}: protocols {} / {}", a.0, b.0)); }
-                    if a.3 != b.3 { problems.push(format!("{k}: bodies differ ({} vs {} bytes)", a.3.len(), b.3.len())); }
+                    if a.3 != b.3 { problems.push(format!("{k}: bodies differ ({} vs {} bytes: {:?} vs {:?})", a.3.len(), b.3.len(), String::from_utf8_lossy(&a.3[..a.3.len().min(80)]), String::from_utf8_lossy(&b.3[..b.3.len().min(80)]))); }
+                    if let Some(n) = k.strip_prefix("post").and_then(|x| match x { "20k" => Some(20_000usize), "20k1" => Some(20_001), "50k" => Some(50_000), "200k" => Some(200_000), _ => None }) {
+                        // exactly the first min(n, 20000) bytes of the body (Mux.h2_body_is_prefix / Http1.body_exact)
+                        let sent = kind(&k).3.unwrap();
+                        let prefix = &sent[..n.min(20_000)];
+                        let sum = prefix.iter().fold(7u64, |acc, x| (acc * 31 + *x as u64) % 1_000_000_007);
+                        let want = format!("len={};sum={sum};", prefix.len());
+                        for (which, r) in [("HTTP/1.1", &a), ("HTTP/2", &b)] {
+                            if !r.3.starts_with(want.as_bytes()) { problems.push(format!("{k} over {which}: the handler asked for at most 20000 bytes of a {n}-byte body and saw {:?}", String::from_utf8_lossy(&r.3[..r.3.len().min(40)]))); }
+                        }
+                    }
                     for r in [&a, &b] {
                         // dates and nonces are per response: masked
                         let hs = list(r.2.iter().filter(|(n, _)| n != "last-modified" && n != "date").map(|(n, v)| format!("{}={}", hex(n.as_bytes()), hex(v))));
